@@ -504,6 +504,15 @@ class _State(object):
         try:
             idx = [self.static_index(p_, env) for p_ in parts]
             val = self.expr(value, env)
+            if cur.ndim == 1 and len(idx) == 1 and isinstance(idx[0], int) and not isinstance(idx[0], bool) and not isinstance(val, A):
+                # x[i] = v / x[i] op= v with a constant index: functional update of one element
+                i = idx[0] + (cur.shape[0] if idx[0] < 0 else 0)
+                if not (0 <= i < cur.shape[0]):
+                    raise Untranslatable('constant index out of range', s)
+                data = list(cur.data)
+                data[i] = self.bind(nm, val if op is None else self.fold(('bin', op, data[i], val)))
+                env[nm] = A(cur.shape, data, cur.ismat)
+                return
             masks = [i for i in idx if isinstance(i, A)]
             if len(masks) != 1 or any(i is None for i in idx) or any(not (isinstance(i, A) or i == 'all') for i in idx):
                 raise Untranslatable('only boolean-mask updates of arrays are supported', s)
@@ -1444,6 +1453,8 @@ class _State(object):
                 return ('call', 'atan2', [self.expr(args[0], env), self.expr(args[1], env)])
             if f == 'mod' and len(args) == 2:
                 return ('call', 'rmod', [self.expr(args[0], env), self.expr(args[1], env)])
+            if f == 'fmod' and len(args) == 2:
+                return ('call', 'fmod', [self.expr(args[0], env), self.expr(args[1], env)])
             if f == 'power' and len(args) == 2:
                 k = self.expr(args[1], env)
                 if k[0] == 'num' and k[1].denominator == 1 and 0 <= k[1] <= 8:
